@@ -5,8 +5,17 @@ ENV = os.path.join(os.path.dirname(os.path.dirname(os.path.abspath(__file__))), 
 UNIT = {
     "name": "codegen_guards",
     "env": [os.path.join(ENV, "codegen_guards_env.rs")],
-    "declared_trusted": {r"external_body": 13},
+    "declared_trusted": {r"external_body": 14},
     "items": [
+        # BindgenContext::instantiate_template: splitting the flattened argument list never reaches below its start
+        # (statements R18, `until` mode; the subtraction and Vec::drain are the obligations)
+        {"kind": "fn", "file": "bindgen/ir/context.rs", "name": "take_sub_args", "impl": r"^impl BindgenContext$", "impl_nth": 0, "ret": "r",
+         "closure": {"enclosing": "instantiate_template", "anchor": "let args_len = args.len();", "nth": 0, "stmt": "until", "until": "sub_args.reverse();",
+                     "signature": "fn take_sub_args(args: &mut Vec<TypeId>, num_expected_template_args: usize) -> (r: Option<Vec<TypeId>>)",
+                     "prefix": "{", "suffix": "Some(sub_args) }"},
+         "subst": [(r"re:args\s*\.drain\(([^;]*?)\.\.\)\s*\.collect\(\)", r"vec_drain_from(args, \1)", 1, "R21 Vec::drain(from..).collect()")],
+         "ensures": ["r.is_some() == (old(args)@.len() >= num_expected_template_args)",
+                     "r.is_some() ==> r.unwrap()@.len() == num_expected_template_args"]},
         # Method::codegen_method: the signature of a method is a function type - or the method is left out, never a panic
         # (a member function declared through a typedef of a function type has an alias as signature)
         {"kind": "fn", "file": "bindgen/codegen/mod.rs", "name": "method_signature", "impl": r"^impl Method$", "ret": "r",
